@@ -157,6 +157,13 @@ def loud_rule(run, u, g, mux):
     run.check(control >= 1, "R6", "positive control", "the detector matches the display-only unwrap_or in the info command", "the detector no longer matches anything in the binary: the rule would pass vacuously")
 
 
+def _monotone_and(body, flag, rv):
+    e = sym.expr_rv(body, rv, stop=(flag,))
+    if e[0] == "bin" and e[1] in ("BitAnd", "And"):
+        return e[2][:2] == ("var", flag) or e[3][:2] == ("var", flag)
+    return False
+
+
 def fn(u, name):
     m = [p for p in u.bodies if p == name or p.endswith("::" + name)]
     return m[0] if len(m) == 1 else None
@@ -321,10 +328,12 @@ def check(prog, run):
             for d in ds:
                 if d[0] == "stmt" and d[3]["rv"]["k"] == "use" and d[3]["rv"]["op"].get("k") == "const":
                     vals.append((d[1], d[3]["rv"]["op"].get("v")))
+                elif d[0] == "stmt" and _monotone_and(vb, flag, d[3]["rv"]):
+                    vals.append((d[1], "and"))        # `flag &= x` / `flag = flag && x`: can only turn the verdict to false
                 else:
                     vals.append((d[1], "?"))
             trues = [v for v in vals if v[1] == 1]
-            others = [v for v in vals if v[1] not in (0, 1)]
+            others = [v for v in vals if v[1] not in (0, 1, "and")]
             run.check(len(trues) == 1 and not others, "R4", "verdict-stores", "initialised true once, otherwise only stored false (%d times)" % (len(vals) - 1),
                       "verdict flag is assigned %s" % vals)
             false_bbs = {v[0] for v in vals if v[1] == 0}
@@ -336,13 +345,37 @@ def check(prog, run):
                     if e_ == ("ref", ("const", '"error"', "&str")):
                         errs.append(bb_)
             nerr = 0
+            # error entries built in helper functions that return (entry, ok): ok must be the constant false on those paths, and the
+            # caller must fold it into the verdict with `&=`
+            for hp, hb in u.bodies.items():
+                if hp == vc or hb["in_test_cfg"] or hp not in g.reach([vc]):
+                    continue
+                herrs = []
+                for bb_, t_, name_, info_ in mir.calls(hb):
+                    if name_ and "to_value" in name_ and t_["args"] and sym.expr(hb, t_["args"][0]) == ("ref", ("const", '"error"', "&str")):
+                        herrs.append(bb_)
+                for ebb in sorted(set(herrs)):
+                    nerr += 1
+                    fw = mir.reachable(hb, [ebb])
+                    flags_ = []
+                    for blk in hb["blocks"]:
+                        if blk["i"] not in fw:
+                            continue
+                        for st_ in blk["stmts"]:
+                            if st_["k"] == "assign" and st_["rv"]["k"] == "aggregate" and st_["rv"].get("agg") == "tuple":
+                                for op in st_["rv"]["ops"]:
+                                    if op.get("k") == "const" and op.get("ty") == "bool":
+                                        flags_.append(op.get("v"))
+                    folded = any(v[1] == "and" for v in vals)
+                    run.check(bool(flags_) and all(f_ == 0 for f_ in flags_) and folded, "R4", "error-branch-clears-verdict (helper %s) #%d" % (mir.norm(hp), nerr),
+                              "the helper returns ok = false with this error entry and the caller folds it with `&=`", "an error check is recorded in %s without a false verdict component (%s) or the caller does not fold it into the verdict" % (mir.norm(hp), flags_), None)
             for ebb in sorted(set(errs)):
                 nerr += 1
                 fw = mir.reachable(vb, [ebb])
                 # a false-store must post-dominate in the sense: reachable before the branches merge with non-error paths
                 hit = any(fb_ in fw for fb_ in false_bbs) and _store_before_merge(vb, ebb, false_bbs)
                 run.check(hit, "R4", "error-branch-clears-verdict #%d" % nerr, "is_valid = false on this error branch", "an error check is recorded without clearing the verdict", None)
-            run.floor("R4", nerr, 5, "error branches in validate")
+            run.floor("R4", nerr, 2, "error branches in validate")
     vh = fn(u, "validate_hex_file")
     if vh:
         hb = u.bodies[vh]
